@@ -146,6 +146,10 @@ def gen_specs(rnd, mols):
             parts = {'resname': r_['resname'], 'resid': r_['resid']}
             if rchain(m, r_):
                 parts['chain'] = rchain(m, r_)
+            other_ = {'GLU-HE1': 'GLU-HE2', 'GLU-HE2': 'GLU-HE1', 'ASP-HD1': 'ASP-HD2', 'ASP-HD2': 'ASP-HD1'}.get(s0['target'])
+            if other_ and rnd.random() < 0.6:
+                # ... with another modification of that residue asked for in between (X, Y, X)
+                specs.append({'kind': s0['kind'], 'parts': dict(parts), 'text': fmt_spec(parts), 'target': other_})
             specs.append({'kind': s0['kind'], 'parts': parts, 'text': fmt_spec(parts), 'target': s0['target']})
     return specs
 
